@@ -255,6 +255,11 @@ class Exec:
         m = re.match(r'^const (-?\d+)_(\w+)$', txt)
         if m:
             return self.const(int(m.group(1)), m.group(2))
+        m = re.match(r'^const ([iu](?:8|16|32|64|size))::(MIN|MAX)$', txt)
+        if m:
+            w, sg = INT[m.group(1)]
+            lo, hi = (-(1 << (w - 1)), (1 << (w - 1)) - 1) if sg else (0, (1 << w) - 1)
+            return self.const(lo if m.group(2) == 'MIN' else hi, m.group(1))
         if txt == 'const true':
             return self.const(1, 'bool')
         if txt == 'const false':
